@@ -155,16 +155,22 @@ static void chk_mixed(const T3 &a, u64 bv, long long &ev)
         if (!(back.c[0] == a.c[0] % PR && back.c[1] == a.c[1] % PR && back.c[2] == a.c[2] % PR)) bad("div", 0, a, b, R, a);
     }
 }
-static void chk_mulscalar(const T3 &a, long long z, long long &ev)
+static void chk_mulscalar_str(const T3 &a, const std::string &st, long long &ev)
 {
-    std::string s = dec(z);
     E3 A, R; set3(A, a);
-    Goldilocks3::mulScalar(R, A, s); ev++;
-    __int128 mm = (__int128)z % (__int128)PR; if (mm < 0) mm += (__int128)PR;
-    u64 m = (u64)mm;
+    std::string s2 = st;
+    Goldilocks3::mulScalar(R, A, s2); ev++;
+    mpz_class z(st), pz, r;
+    mpz_import(pz.get_mpz_t(), 1, 1, 8, 0, 0, &PR);
+    mpz_fdiv_r(r.get_mpz_t(), z.get_mpz_t(), pz.get_mpz_t());
+    u64 m = mpz_get_ui(r.get_mpz_t());
     T3 ex{{F.mul(a.c[0], m), F.mul(a.c[1], m), F.mul(a.c[2], m)}};
-    if (!eqmod(R, ex)) rep().viol(fmt("C09.wrong.mulScalar.%s.w%u", (__int128)z < -(__int128)PR ? "below-minus-p" : (z < 0 ? "negative" : "nonneg"), W), casestr("mulScalar", 0, a, T3{{(u64)z, 0, 0}}) + " z=" + s, fmt("got (%s,%s,%s) expected (%s)", hex(R[0].fe).c_str(), hex(R[1].fe).c_str(), hex(R[2].fe).c_str(), t3s(ex).c_str()));
+    const char *cls = (z < -pz) ? "below-minus-p" : (z < 0 ? "negative" : (z >= pz ? "big" : "nonneg"));
+    if (!eqmod(R, ex))
+        rep().viol(fmt("C09.wrong.mulScalar.%s.w%u", cls, W), casestr("mulScalar", 0, a, T3{{0, 0, 0}}) + " z=" + st,
+                   fmt("got (%s,%s,%s) expected (%s)", hex(R[0].fe).c_str(), hex(R[1].fe).c_str(), hex(R[2].fe).c_str(), t3s(ex).c_str()));
 }
+static void chk_mulscalar(const T3 &a, long long z, long long &ev) { chk_mulscalar_str(a, dec(z), ev); }
 static void chk_batch(const std::vector<T3> &v, long long &ev)
 {
     size_t n = v.size();
@@ -221,7 +227,7 @@ static int run_one(const Args &args)
     else if (op == "mul" || op == "mul_ptr") chk_bin(2, a, b, ev);
     else if (op == "square" || op == "neg" || op == "isOne" || op == "copy") chk_unary(a, ev);
     else if (op == "inv") chk_inv(a, ev);
-    else if (op == "mulScalar") chk_mulscalar(a, strtoll(cs(m, "z").c_str(), 0, 10), ev);
+    else if (op == "mulScalar") chk_mulscalar_str(a, cs(m, "z"), ev);
     else if (op.rfind("batchInverse", 0) == 0)
     {
         std::vector<T3> v;
@@ -311,16 +317,7 @@ int main(int argc, char **argv)
         {
             // below -p and above 2^64 as strings
             for (const char *s : {"-18446744069414584326", "18446744073709551621", "-36893488138829168647", "340282366920938463463374607431768211456"})
-            {
-                E3 A, R; T3 a{{3, 5, 7}}; set3(A, a);
-                std::string st = s;
-                Goldilocks3::mulScalar(R, A, st); ev++;
-                mpz_class z(st), pz("18446744069414584321"), r;
-                mpz_fdiv_r(r.get_mpz_t(), z.get_mpz_t(), pz.get_mpz_t());
-                u64 m = mpz_get_ui(r.get_mpz_t());
-                T3 ex{{F.mul(3, m), F.mul(5, m), F.mul(7, m)}};
-                if (!eqmod(R, ex)) rep().viol(fmt("C09.wrong.mulScalar.%s.w32", z < -pz ? "below-minus-p" : "big"), fmt("w=32 op=mulScalar a=0x3,0x5,0x7 b=0x0,0x0,0x0 z=%s", s), "wrong product with a big decimal string");
-            }
+                chk_mulscalar_str(T3{{3, 5, 7}}, s, ev);
         }
         ev_total += ev;
         states += (long long)(sub.size() * zs.size());
